@@ -209,7 +209,12 @@ from pyvc.spec import ExtObj, OpaqueT, Bool   # noqa: E402  pylint: disable=wron
 
 AggregatorT = Obj(f"{METHODS}:SendOnUpdate", _working_batteries=SetOf(Int),
                   _metric_calculator=ExtObj("MetricCalculator", batteries=SetOf(Int)),
-                  _cached_metrics=ExtObj("dict[int, ComponentMetricsData]", methods=dict(pop=dict(effects={"n_pop": "self.n_pop + 1"})), n_pop=Int), _bat_inv_map=ExtObj("dict[int, set[int]]", methods={"__getitem__": dict(returns="invs")}),
+                  _cached_metrics=ExtObj("dict[int, ComponentMetricsData]", methods={
+                      "pop": dict(effects={"n_pop": "self.n_pop + 1"}),
+                      # nothing is known about WHICH components have a cache entry (a battery that never sent data has
+                      # none): deleting an entry outright may raise
+                      "__delitem__": dict(effects={"n_pop": "self.n_pop + 1"}, raises=["KeyError"], raise_before_effects=True)},
+                      n_pop=Int), _bat_inv_map=ExtObj("dict[int, set[int]]", methods={"__getitem__": dict(returns="invs")}),
                   _update_event=ExtObj("asyncio.Event", methods=dict(set=dict(effects={"n_set": "self.n_set + 1"})),
                                        n_set=Int))
 
